@@ -12,6 +12,14 @@ deriving DecidableEq, Repr, Inhabited
 inductive CGrid where | control | integrator | roots | point | inf
 deriving DecidableEq, Repr, Inhabited
 
+/-- an operand of an `inf` constraint that is not an ordinary symbol (`Sym.off i` refers to entry `i`) -/
+inductive InfOp where
+  /-- `ocp.inf_inert(e)`: `e` evaluated at the control node, treated as constant over the step -/
+  | inert (e : Expr)
+  /-- `ocp.inf_der(x_i)`: the time derivative of the state polynomial -/
+  | der (state : Nat)
+deriving Inhabited
+
 /-- one scalar row of a declared constraint: `a ≤ b`, `a == b` or `a ≤ b ≤ c` -/
 structure Con (α : Type) where
   id : Nat
@@ -25,6 +33,8 @@ structure Con (α : Type) where
   scale : α
   /-- shifted operands `(expr, offset)`; `Sym.off i` in `a b c` refers to entry `i` -/
   offs : List (Expr × Int) := []
+  /-- special operands of a `grid='inf'` constraint -/
+  infOps : List InfOp := []
 
 inductive PhKind where
   | atT0 | atTf | sum | sumPlus | intControl
